@@ -3,6 +3,8 @@
 AudA_ == "https://api.a.example/"
 Authz(c, rt, sc, gr, au, rd, pk) ==
   [op |-> "authorize", client |-> c, rtype |-> rt, scopes |-> sc, grant |-> gr, aud |-> au, redir |-> rd, pkce |-> pk]
+AuthzIll(c, rt, sc, gr, au, rd, pk, ill) ==     \* ... whose PKCE verifier contains the reserved character named by ill
+  [op |-> "authorize", client |-> c, rtype |-> rt, scopes |-> sc, grant |-> gr, aud |-> au, redir |-> rd, pkce |-> pk, ill |-> ill]
 AuthzG(c, rt, sc, gr, au, gau, rd, pk) ==      \* ... with partial consent on the audience
   [op |-> "authorize", client |-> c, rtype |-> rt, scopes |-> sc, grant |-> gr, aud |-> au, gaud |-> gau, redir |-> rd, pkce |-> pk]
 Redeem(c, a, k, rd, v, xs, xa) ==
